@@ -103,6 +103,11 @@ func wireMaps() []ovsdb.OvsMap {
 		{GoMap: map[interface{}]interface{}{vUUID: vUUID2}},
 		{GoMap: map[interface{}]interface{}{"k": float64(7), "l": float64(-1)}},
 		{GoMap: map[interface{}]interface{}{"k": true}},
+		// sets nested inside maps (the decoder accepts any value notation in value position)
+		{GoMap: map[interface{}]interface{}{"k": ovsdb.OvsSet{GoSet: []interface{}{vUUID, vUUID2}}}},
+		{GoMap: map[interface{}]interface{}{"k": ovsdb.OvsSet{GoSet: []interface{}{vNamed, vUUID}}, "l": vUUID2}},
+		{GoMap: map[interface{}]interface{}{"k": ovsdb.OvsSet{GoSet: []interface{}{"a", "b"}}}},
+		{GoMap: map[interface{}]interface{}{"k": ovsdb.OvsSet{GoSet: []interface{}{}}}},
 	}
 }
 
